@@ -61,6 +61,10 @@ func Compare(slice []any, i int, j int, orderBy OrderByDefinition) (bool, error)
 	if second == nil {
 		return true, nil
 	}
+	// values that are not scalars are ordered by their printed forms: a value that contains itself has none
+	if containsItself(first, make(map[uintptr]struct{})) || containsItself(second, make(map[uintptr]struct{})) {
+		return false, EXPECTATION_FAILED.Extend("ORDER BY cannot compare a value that contains itself")
+	}
 	res := compare.Compare(first, second)
 	if res == 0 {
 		return Compare(slice, i, j, orderBy[1:])
